@@ -250,6 +250,14 @@ impl UserToken {
             }
         };
 
+        // Cached credentials are only ever written as hsm bound hashes. Any other kind of
+        // hash is not sealed to this machine and would verify without the hsm, so it must
+        // never be accepted as an offline credential.
+        if !matches!(dbpw, DbPasswordV1::TPM_ARGON2ID { .. }) {
+            warn!(spn = %self.spn, "cached credential is not hsm bound, refusing to use it");
+            return false;
+        }
+
         let pw = match Password::try_from(dbpw) {
             Ok(pw) => pw,
             Err(reason) => {
